@@ -28,6 +28,16 @@ CHECKS["C10"] = dict(
          "select-default judged by the case-by-case reading (DESIGN C10); one known finding (same-channel select pair) listed in known-findings.txt",
     design="5 C10")
 
+CHECKS["C11"] = dict(
+    engine="tlc+controlled-scheduler+compiled-programs",
+    technique="TLA+ semaphore/notify-list contracts (GoSync) as judge: outcome sets (GoSyncProg) + TLC trace validation (GoSyncTrace) of histories from the real sema_llgo.go under a controlled scheduler with atomics as scheduling points; llgo-compiled sync/atomic/go-statement stress programs",
+    text="The real sema_llgo.go (copied from the working tree, psync/latomic redirected to scheduler gates) is driven through all interleavings "
+         "at lock/wait/signal/atomic granularity for ~120 scenarios and every outcome/history must satisfy the TLA+ contracts (units conserved, "
+         "no lost wake-up, Wait returns only for a notified ticket). Go statements, Mutex/RWMutex/WaitGroup/Once/Cond and atomics of all widths "
+         "are exercised by llgo-compiled programs with real threads whose output is schedule independent.",
+    note="assumes Go's own sync package is correct given the semaphore/notify contracts; compiled stress programs see only OS-chosen schedules",
+    design="5 C11")
+
 NOT_YET = {}
 
 props = [json.loads(l) for l in open(os.path.join(V, "properties.jsonl"))]
